@@ -457,7 +457,7 @@ Section BoundsTotal.
     intros a b. destruct b; try discriminate.
     match goal with |- match ?c with _ => _ end <> None => destruct c eqn:E end.
     - apply upper_bound_def.
-    - revert E. apply collect_o_def. intros y _.
+    - exfalso. revert E. apply collect_o_def. intros y _.
       destruct (conf a y) as [[|]|] eqn:E1; [discriminate| |destruct (conf_total _ _ E1)].
       destruct (conf y a) as [[|]|] eqn:E2; [discriminate|discriminate|destruct (conf_total _ _ E2)].
   Qed.
@@ -476,9 +476,9 @@ Section BoundsTotal.
     (* left side a union *)
     match goal with |- match ?c with _ => _ end <> None => destruct c eqn:Ec end.
     - apply upper_bound_def.
-    - revert Ec. apply collect_o_def. intros x Hx.
+    - exfalso. revert Ec. apply collect_o_def. intros x Hx.
       rewrite Forall_forall in H. specialize (H x Hx b).
-      destruct (intersect conf srt x b); [discriminate | exact H].
+      destruct (intersect conf srt x b); [discriminate | destruct (H eq_refl)].
   Qed.
 
   Lemma lb_loop_def : forall ts acc, lb_loop conf srt acc ts <> None.
